@@ -326,6 +326,7 @@ class Store:
         return (tuple(items), vals, lts, les)
 
 
+CLOSURE_PARAM_FACTS = {}     # closure key -> {2: AV} (item parameter bounded by the range it is mapped over) | None (unbounded at some site)
 WIDTH_FN_KEY = None     # key of candid::de's fn(PrimitiveType) -> usize, set by the caller (found by signature: shared.width_fn_key)
 CALL_ASSUMPTIONS = {
     "@width_fn": (1, 8, "the decoder's fn(PrimitiveType) -> usize returns the width of a fixed-width primitive, 1/2/4/8 "
@@ -824,6 +825,8 @@ class Interp:
             vid = ("rangefrom", self.operand(st, r["ops"][0], where))
         elif k == "agg" and r.get("ak") == "adt" and r.get("adt", "").endswith("ops::range::RangeTo") and len(r["ops"]) == 1:
             vid = ("rangeto", self.operand(st, r["ops"][0], where))
+        elif k == "agg" and r.get("ak") == "closure" and r.get("closure"):
+            vid = ("closure", r["closure"])
         elif k == "agg" and r.get("ak") == "array":
             elems = [self.operand(st, o, where) for o in r["ops"]]
             l = p["l"] if self.place_key(p) is None else None
@@ -1057,6 +1060,55 @@ class Interp:
                         s2.val[pay] = AV(lo_v.lo, max(lo_v.lo, hi_v.hi - 1))
                         s2.lt.add((pay, rv[2]))
                         self._pending_payload = (dest["l"], pay)
+            # a closure handed to anything but the adaptors below may be called with any argument: no fact is kept for it
+            if not re.search(r"Iterator>?::(map|for_each|all|any|position|rposition|flat_map|try_for_each)$", name):
+                for a_ in t["args"]:
+                    v_ = self.operand(st, a_, (bi, "t"))
+                    if isinstance(v_, tuple) and v_[0] == "closure":
+                        CLOSURE_PARAM_FACTS[v_[1]] = None
+            # (lo..hi).map(|i| ..) and friends: the closure's item parameter ranges over [lo, hi); remembered for the analysis of the closure body
+            if re.search(r"Iterator>?::(map|for_each|all|any|position|rposition|flat_map|try_for_each)$", name) and len(t["args"]) >= 2:
+                a0 = self.operand(st, t["args"][0], (bi, "t"))
+                a1 = self.operand(st, t["args"][1], (bi, "t"))
+                if isinstance(a0, tuple) and a0[0] in ("refl", "ref"):
+                    a0 = st.loc.get(a0[1]) if a0[0] == "refl" else a0[1]
+                if isinstance(a1, tuple) and a1[0] == "closure":
+                    key_ = a1[1]
+                    fact = None
+                    if isinstance(a0, tuple) and a0[0] == "range":
+                        lo_v, hi_v = self.val(st, a0[1]), self.val(st, a0[2])
+                        if lo_v is not None and hi_v is not None and not lo_v.is_bottom() and not hi_v.is_bottom():
+                            fact = AV(lo_v.lo, max(lo_v.lo, hi_v.hi - 1))
+                    prev = CLOSURE_PARAM_FACTS.get(key_, "none")
+                    if fact is None or prev is None:
+                        CLOSURE_PARAM_FACTS[key_] = None                     # some call site gives no bound: nothing is assumed
+                    elif prev == "none":
+                        CLOSURE_PARAM_FACTS[key_] = {2: fact}
+                    else:
+                        CLOSURE_PARAM_FACTS[key_] = {2: AV(min(prev[2].lo, fact.lo), max(prev[2].hi, fact.hi))}
+            # &Vec<T> -> &[T]: the same sequence (same length id)
+            if vid is None and re.search(r"vec::Vec<.*> as core::ops::deref::Deref>::deref$|vec::Vec::<T, A>::as_slice$", name) and t["args"]:
+                vid = self.operand(st, t["args"][0], (bi, "t"))
+            # slice.iter() ... .position(p) / .rposition(p): Some(i) carries an index of that slice
+            if vid is None and re.search(r"slice::<impl \[T\]>::iter$", name) and t["args"]:
+                a = self.operand(st, t["args"][0], (bi, "t"))
+                vid = ("sliceiter", a)
+                if ("len", a) not in s2.val:
+                    s2.val[("len", a)] = AV(0, 2**63 - 1)
+            if vid is None and re.search(r"Iterator>?::(position|rposition)$", name) and t["args"]:
+                a = self.operand(st, t["args"][0], (bi, "t"))
+                it = None
+                if isinstance(a, tuple) and a[0] == "refl" and isinstance(st.loc.get(a[1]), tuple) and st.loc[a[1]][0] == "sliceiter":
+                    it = st.loc[a[1]]
+                elif isinstance(a, tuple) and a[0] == "ref" and isinstance(a[1], tuple) and a[1][0] == "sliceiter":
+                    it = a[1]
+                if it is not None and self.place_key(dest) is None:
+                    vid = self.fresh(s2, dty, ("call", bi))
+                    pay = ("load", ("positem", bi), 0)
+                    self.forget(s2, pay)
+                    s2.val[pay] = AV(0, 2**63 - 2)
+                    s2.lt.add((pay, ("len", it[1])))
+                    self._pending_payload = (dest["l"], pay)
             if vid is None:
                 vid = self.fresh(s2, dty, ("call", bi))
                 for rx, (lo, hi, why) in CALL_ASSUMPTIONS.items():
@@ -1266,4 +1318,6 @@ class Interp:
 
 
 def analyse(body, param_facts=None):
+    if param_facts is None and body.j.get("kind") == "Closure":
+        param_facts = CLOSURE_PARAM_FACTS.get(body.key) or None      # filled while the parent function was analysed
     return Interp(body, param_facts=param_facts).run()
